@@ -30,7 +30,7 @@ func withBuf(visHex, tailHex string, f func(b []byte) string) string {
 	buf = append(buf, v...)
 	buf = append(buf, t...)
 	snap := append([]byte(nil), buf...)
-	mark := len(heldVals)
+	mark, markR := len(heldVals), len(heldRenders)
 	r := f(buf[:len(v):len(v)+len(t)])
 	for i := range snap {
 		if snap[i] != buf[i] {
@@ -38,13 +38,18 @@ func withBuf(visHex, tailHex string, f func(b []byte) string) string {
 		}
 	}
 	// the caller reuses its buffer: what was handed out must not change with it
-	if len(heldVals) > mark {
+	if len(heldVals) > mark || len(heldRenders) > markR {
 		for i := range buf {
 			buf[i] = ^buf[i]
 		}
 		bad := false
 		for _, h := range heldVals[mark:] {
 			if canonRaw(h.v) != h.s {
+				bad = true
+			}
+		}
+		for _, h := range heldRenders[markR:] {
+			if h.f() != h.s {
 				bad = true
 			}
 		}
@@ -88,6 +93,21 @@ var canonDepth int
 func canon(v interface{}) string {
 	s := canonRaw(v)
 	heldVals = append(heldVals, heldVal{v, s})
+	return s
+}
+
+// held is the same for results with a renderer of their own: the closure is kept with what it returned and called again
+// after the input buffer was overwritten (withBuf) and after the next case ran (case runner).  No scribbling for these.
+type heldRender struct {
+	f func() string
+	s string
+}
+
+var heldRenders, prevRenders []heldRender
+
+func held(render func() string) string {
+	s := render()
+	heldRenders = append(heldRenders, heldRender{render, s})
 	return s
 }
 
